@@ -25,7 +25,7 @@ def one(sid):
         os.makedirs(ev)
         env = dict(os.environ, CIJ_REPO=dst, VERIF_EVIDENCE_DIR=ev, VERIF_REPLAY_DIR=ev)
         res = {}
-        for c in meta.get("checks", {}):
+        for c in (OVERRIDE or meta.get("checks", {})):
             rr = subprocess.run([sys.executable, os.path.join(VERIF, "run_check.py"), c, "--tier", "quick"], env=env, capture_output=True, text=True)
             res[c] = dict(exit=rr.returncode, violation_lines=sum(1 for l in rr.stdout.splitlines() if l.startswith("VIOLATION")))
         return sid, dict(applied=True, checks=res)
@@ -33,9 +33,16 @@ def one(sid):
         shutil.rmtree(tmp, ignore_errors=True)
 
 
+OVERRIDE = None
+
+
 def main():
+    global OVERRIDE
     a = sys.argv[1:]
     jobs = 6
+    if "--checks" in a:          # run these checks instead of the ones recorded in meta.json (result file not rewritten)
+        OVERRIDE = a[a.index("--checks") + 1].split(",")
+        del a[a.index("--checks"):a.index("--checks") + 2]
     if "--jobs" in a:
         jobs = int(a[a.index("--jobs") + 1])
         del a[a.index("--jobs"):a.index("--jobs") + 2]
@@ -43,7 +50,8 @@ def main():
     with ThreadPoolExecutor(max_workers=jobs) as ex:
         out = dict(ex.map(one, ids))
     head = subprocess.run("git -C /repo rev-parse --short HEAD", shell=True, capture_output=True, text=True).stdout.strip()
-    json.dump(dict(repo_head=head, results=out), open(os.path.join(VERIF, "seeded", "RECHECK.json"), "w"), indent=1, sort_keys=True)
+    if OVERRIDE is None and len(ids) > 20:
+        json.dump(dict(repo_head=head, results=out), open(os.path.join(VERIF, "seeded", "RECHECK.json"), "w"), indent=1, sort_keys=True)
     ok = True
     for sid in ids:
         r = out[sid]
